@@ -32,11 +32,15 @@ pub mod crypto {
     use crate::errors::Result;
     use crate::{Algorithm, DecodingKey};
     pub fn verify(signature: &str, message: &[u8], key: &DecodingKey, algorithm: Algorithm) -> Result<bool> {
-        let mut text = String::with_capacity(message.len() + 1 + signature.len());
+        // byte-wise: String::push(char) would make the length depend on len_utf8 of each byte
+        let mut tv: Vec<u8> = Vec::with_capacity(message.len() + 1 + signature.len());
         let mut i = 0;
-        while i < message.len() { text.push(message[i] as char); i += 1; }
-        text.push('.');
-        text.push_str(signature);
+        while i < message.len() { tv.push(message[i]); i += 1; }
+        tv.push(b'.');
+        let sb = signature.as_bytes();
+        let mut j = 0;
+        while j < sb.len() { tv.push(sb[j]); j += 1; }
+        let text = match String::from_utf8(tv) { Ok(t) => t, Err(_) => return Ok(false) };
         Ok(match crate::model::lookup(&text) {
             Some(idx) => crate::model::verify_raw(idx, &text, key, algorithm),
             None => false,
